@@ -7,7 +7,7 @@ BOUNDS = {
     "quick": "one operation (aspirate|dispense|transfer|distribute) from an arbitrary valid state (symbolic per-well volumes, labware "
              "min/max_volume, worklist max_volume > 0, volume arguments >= 0); both devices; plate 2x2 and trough 3 virtual rows x 2 columns on "
              "either side, a trough 2x2 with a plate 2x2 (identical shape), plus same-labware transfers; k<=2 wells/triples chosen from 4 candidate ids (repeats allowed); <=3 split steps (k=1) / "
-             "<=2 (k=2); partition_by auto/source/destination; wash 1/'reuse'; scalar and per-well volume arguments; distribute to 1-3 wells",
+             "<=2 (k=2); partition_by auto/source/destination; wash 1/'reuse'; scalar and per-well volume arguments; distribute to 1-3 wells; plus one transfer between two plates built by the public constructor from ONE caller-owned float array",
     "thorough": "as quick, plus geometries plate 3x2 / 8x2 / 1x1 and troughs 1x1 / 8x1, <=4 split steps for k=1, 4 candidate wells per slot for k=2 with all "
                 "partition modes, wash schemes 1,3,'flush','reuse', composition agreement for k=2 transfers without splitting incl. chained same-labware transfers",
 }
